@@ -17,5 +17,67 @@ PROFILES = [(Profile(p_wrap=0.0, n_procs=(0, 0), p_naming=0.6, p_extra_instance=
 RULE = 'custom/default/empty custom names; requested name present, absent, present with incompatible type; fields *T, interface, any; required/optional; non-trivial = scenario has a by-name point'
 
 
+import vlib
+
+REG_HEADER = ("From Coq Require Import List Arith Bool.\nFrom IocVerif Require Import Model.SingletonRegistry Corr.Check_C07reg.\n"
+              "Import ListNotations.\nNotation case := rcase.\n")
+
+
+def registration_stream(ctx, by_id_out, cov):
+    """registration sequences against the real singleton registry (names unique; duplicates rejected)"""
+    rng = ctx.rng
+    n = 400 if ctx.quick() else 8000
+    cases = []
+    for cid in range(n):
+        reqs = []
+        ninst = rng.randint(1, 6)
+        for i in range(ninst):
+            t = rng.choice(["N0", "N1", "N2", "P0", "P1", "P2"])
+            name = rng.choice(["", "a", "b", "c"]) if t.startswith("N") else ""
+            reqs.append({"inst": i, "type": t, "name": name})
+        seq = [dict(rng.choice(reqs)) for _ in range(rng.randint(1, 8))]
+        cases.append({"id": cid, "reqs": seq})
+    binp = vlib.go_build(ctx, "./cmd/c07reg")
+    rc, res, raw = vlib.run_json(binp, {"cases": cases})
+    if res is None:
+        raise vlib.GoBuildError("./cmd/c07reg (run)", raw[-2000:])
+    ids = {}
+
+    def nid(sname):
+        return ids.setdefault(sname, len(ids))
+    terms = []
+    for c, o in zip(cases, res["outs"]):
+        reqs = []
+        for r, regname in zip(c["reqs"], o["names"] or []):
+            default = nid("main/" + r["type"])
+            custom = "(Some %d)" % nid(r["name"]) if (r["type"].startswith("N") and r["name"] != "") else "None"
+            # the model's registered name must be the implementation's GetComponentName
+            want = r["name"] if (r["type"].startswith("N") and r["name"] != "") else "main/" + r["type"]
+            if regname != want:
+                custom = "(Some %d)" % nid("??" + regname)   # forces a mismatch
+            reqs.append("(mkReq %d %s %d)" % (r["inst"], custom, default))
+        reqs = reqs[:len(o["outs"] or [])]
+        outs = [{"ok": 0, "same": 1, "panic": 2}[x] for x in (o["outs"] or [])]
+        final = ["(%d, %d)" % (nid(nm), inst) for nm, inst in zip(o["final"] or [], o["finalin"] or [])]
+        terms.append("(mkRC %d %s %s %s)" % (c["id"], vlib.coq_list(reqs), vlib.coq_list(map(str, outs)) + "%nat",
+                                            vlib.coq_list(final)))
+    out = vlib.coq_eval_sharded(ctx, "cases_c07reg", REG_HEADER, terms,
+                                {"RM": "rmismatches", "RV": "rviolations", "RNT": "rnontrivial"})
+    ctx.oblige("registration correspondence mismatches = []", not out["RM"], "%d disagreeing" % len(out["RM"]))
+    ctx.oblige("registration oracle (one instance per name, first registrant keeps it)", not out["RV"],
+               "%d failing" % len(out["RV"]))
+    cov["registration_sequences"] = len(cases)
+    cov["registration_nontrivial"] = sum(out["RNT"])
+    cov["registration_failures"] = {"mismatch": out["RM"][:10], "oracle": out["RV"][:10]}
+    ctx.reg_bad = [cases[i] for i in (out["RM"] + out["RV"])[:3]]
+
+
 def run(ctx):
-    return wiring.run_family(ctx, "Corr.Check_C07", wiring.std_scenarios(PROFILES), RULE)
+    def post(ctx, by_id, cov):
+        registration_stream(ctx, by_id, cov)
+    rc = wiring.run_family(ctx, "Corr.Check_C07", wiring.std_scenarios(PROFILES), RULE, post=post)
+    if rc == 0 and getattr(ctx, "reg_bad", None):
+        rp = vlib.write_replay(ctx, "viol", {"property": "C07", "kind": "registration sequence", "case": ctx.reg_bad[0]})
+        vlib.violation(ctx, rp)
+        return 1
+    return rc
